@@ -356,7 +356,7 @@ func (e *Entry) Verify(identity identityprovider.Interface, io iface.IO) error {
 	}
 
 	// TODO: Check against trusted keys
-	var verifiedEntry iface.IPFSLogEntry
+	var verifiedEntry iface.IPFSLogEntry = e
 	if io, ok := io.(iface.IOPreSign); ok {
 		var err error
 		verifiedEntry, err = io.PreSign(e)
